@@ -9,6 +9,7 @@ import (
 	"sort"
 	"strings"
 	"sync"
+	"sync/atomic"
 	"testing"
 	"time"
 
@@ -412,6 +413,18 @@ func check(b built) (nt bool, labels []string, sig string, err error) {
 			return false, nil, "differs", fmt.Errorf("call %d %s on %s with %d rows:\n alone   %s\n batched %s\n all calls: %v", i, c.descr, b.table, len(b.rows), alone[i], batched[i], descrs(b.calls))
 		}
 	}
+	plain := 0
+	for _, c := range b.calls {
+		if c.options == nil {
+			plain++
+		}
+	}
+	if nctx == 1 && plain >= 2 {
+		atomic.AddInt64(&eligible, 1)
+		if selects < len(b.calls) {
+			atomic.AddInt64(&combined, 1)
+		}
+	}
 	nt = selects < len(b.calls) && len(distinctFilters) >= 2
 	_ = reprDiffers
 	for k, v := range map[string]bool{"combined": selects < len(b.calls), "null-filter": nullFilter, "distinct-filters>=2": len(distinctFilters) >= 2, "table:" + b.table: true} {
@@ -431,7 +444,21 @@ func descrs(cs []call) []string {
 	return out
 }
 
+// eligible / combined: cases with >= 2 calls without options in one batching context, and
+// how many of them were served by fewer SELECTs than calls
+var eligible, combined int64
+
 func TestBatchTransparent(t *testing.T) {
+	defer func() {
+		// "concurrent calls are combined into fewer SELECT statements": which calls share a
+		// batch is a matter of timing, so a single case proves nothing, but over hundreds of
+		// cases whose calls start together it has to happen
+		e, c := atomic.LoadInt64(&eligible), atomic.LoadInt64(&combined)
+		if e >= 200 && c == 0 && !t.Failed() {
+			p := rec.Violate("TestBatchTransparent", map[string]interface{}{"eligible_cases": e, "combined_cases": c}, fmt.Sprintf("never-combined: in %d cases with several concurrent Query/QueryRow calls under one batching context not one SELECT served more than one call", e))
+			t.Fatalf("batching never combined any calls in %d eligible cases (replay %s)", e, p)
+		}
+	}()
 	rapid.Check(t, func(t *rapid.T) {
 		b := gen(t)
 		nt, labels, sig, err := check(b)
